@@ -444,21 +444,26 @@ End Session.
 
 (* ============================ what the theorems assume of the endpoint *)
 
-(* local/endpoint.go Stage, first statements: a read-only endpoint refuses,
-   then the same two argument checks the client makes. *)
-Definition local_stage_front (read_only : bool) (paths : list pathT) (digests : list digestT)
+(* local/endpoint.go Stage, first statements. As the code is ([fixed] = false):
+   a read-only endpoint refuses first, then the same two argument checks the
+   client makes. As it would be after the proposed repair ([fixed] = true):
+   the two argument checks first, then the read-only refusal. *)
+Definition local_stage_front (fixed read_only : bool) (paths : list pathT) (digests : list digestT)
   : option stage_answer :=
-  if read_only then Some (GAErr "endpoint is in read-only mode"%string)
-  else if negb (List.length paths =? List.length digests)
-       then Some (GAErr "path count does not match digest count"%string)
-       else if List.length paths =? 0 then Some (GAOk [] [])
-            else None.
+  let mismatch := negb (List.length paths =? List.length digests) in
+  let empty := List.length paths =? 0 in
+  let refuse := Some (GAErr "endpoint is in read-only mode"%string) in
+  let bad := Some (GAErr "path count does not match digest count"%string) in
+  if fixed
+  then if mismatch then bad else if empty then Some (GAOk [] []) else if read_only then refuse else None
+  else if read_only then refuse else if mismatch then bad else if empty then Some (GAOk [] []) else None.
 
-(* the known-finding class: Stage with no paths and no digests on a read-only
-   endpoint (the local endpoint fails, the client reports "nothing to stage") *)
-Definition known_c21 (read_only : bool) (o : op) : bool :=
+(* the known-finding class (unrepaired code only): Stage with no paths and no
+   digests on a read-only endpoint (the local endpoint fails, the client
+   reports "nothing to stage") *)
+Definition known_c21 (fixed read_only : bool) (o : op) : bool :=
   match o with
-  | OpStage [] [] => read_only
+  | OpStage [] [] => negb fixed && read_only
   | _ => false
   end.
 
@@ -477,11 +482,11 @@ Definition trans_answer_wf (n : nat) (a : trans_answer) : Prop :=
 
 (* An endpoint that honours the synchronization.Endpoint contract on its
    answers and whose Stage begins as the local endpoint's does. *)
-Record endpoint_ok (read_only : bool) (St : Type) (E : endpoint St) : Prop := {
+Record endpoint_ok (fixed read_only : bool) (St : Type) (E : endpoint St) : Prop := {
   ok_scan : forall st full, answer_wf (snd (ep_scan E st full));
   ok_stage : forall st ps ds, stage_answer_wf ps (snd (ep_stage E st ps ds));
   ok_stage_front : forall st ps ds a,
-      local_stage_front read_only ps ds = Some a -> ep_stage E st ps ds = (st, a);
+      local_stage_front fixed read_only ps ds = Some a -> ep_stage E st ps ds = (st, a);
   ok_transition : forall st cs, trans_request_valid cs = true ->
                                 trans_answer_wf (List.length cs) (snd (ep_transition E st cs))
 }.
@@ -607,14 +612,14 @@ Arguments local_step {snapshot ancestor pathT digestT fsig result problem change
 Arguments local_run {snapshot ancestor pathT digestT fsig result problem change St}.
 Arguments remote_step {snapshot ancestor bytes sgn delta} _ _ _ _ _ _ _ _ _ _ _ {pathT digestT fsig} _ {result problem change} _ _ _ {St}.
 Arguments remote_run {snapshot ancestor bytes sgn delta} _ _ _ _ _ _ _ _ _ _ _ {pathT digestT fsig} _ {result problem change} _ _ _ {St}.
-Arguments endpoint_ok {snapshot bytes} _ _ {pathT digestT fsig} _ {result problem change} _ _ _ _ {St}.
+Arguments endpoint_ok {snapshot bytes} _ _ {pathT digestT fsig} _ {result problem change} _ _ _ _ _ {St}.
 Arguments op_wf {snapshot ancestor bytes} _ _ {pathT digestT change}.
 Arguments stage_answer_wf {pathT fsig}. Arguments trans_answer_wf {result problem}.
 Arguments trans_request_valid {change}.
-Arguments ok_scan {snapshot bytes marshal snap_valid pathT digestT fsig fsig_valid result problem change result_valid problem_valid change_valid read_only St E}.
-Arguments ok_stage {snapshot bytes marshal snap_valid pathT digestT fsig fsig_valid result problem change result_valid problem_valid change_valid read_only St E}.
-Arguments ok_stage_front {snapshot bytes marshal snap_valid pathT digestT fsig fsig_valid result problem change result_valid problem_valid change_valid read_only St E}.
-Arguments ok_transition {snapshot bytes marshal snap_valid pathT digestT fsig fsig_valid result problem change result_valid problem_valid change_valid read_only St E}.
+Arguments ok_scan {snapshot bytes marshal snap_valid pathT digestT fsig fsig_valid result problem change result_valid problem_valid change_valid fixed read_only St E}.
+Arguments ok_stage {snapshot bytes marshal snap_valid pathT digestT fsig fsig_valid result problem change result_valid problem_valid change_valid fixed read_only St E}.
+Arguments ok_stage_front {snapshot bytes marshal snap_valid pathT digestT fsig fsig_valid result problem change result_valid problem_valid change_valid fixed read_only St E}.
+Arguments ok_transition {snapshot bytes marshal snap_valid pathT digestT fsig fsig_valid result problem change result_valid problem_valid change_valid fixed read_only St E}.
 Arguments ep_scan {snapshot pathT digestT fsig result problem change St}.
 Arguments ep_stage {snapshot pathT digestT fsig result problem change St}.
 Arguments ep_transition {snapshot pathT digestT fsig result problem change St}.
